@@ -249,6 +249,21 @@ def judge : List String → String
       | some txt => "ok " ++ hexOfBytes (commandPayload txt) ++ " " ++ String.ofList (hexlify (le16 (commandPayload txt).length))
       | none => "raise RuntimeError"
     | none => "bad-arg"
+  | ["c16cmd", sid, ts, did, key, frame, ir, st, md, tt, fan, sw, prev] =>   -- C16: the IR frame carries the Spec's command for these settings
+    match parseIr ir, int? tt, bytesOfHex? frame with
+    | some (id, on, set), some t, some f =>
+      match specCommand id on set st md t fan sw (if prev == "-" then none else some prev) with
+      | .text txt => if refWire (.breezeCommand (commandPayload txt)) sid.toList ts.toList did.toList key.toList == some f then "1" else "0"
+      | .refused => "refused"
+      | .missing => "missing"
+    | _, _, _ => "bad-arg"
+  | ["c16swing", sid, ts, did, key, frame, ir, sw] =>
+    match parseIr ir, bytesOfHex? frame with
+    | some (_, _, set), some f =>
+      match storedText set (if sw == "OFF" then cs!"FUN_d0" else cs!"FUN_d1") with
+      | some txt => if refWire (.breezeCommand (commandPayload txt)) sid.toList ts.toList did.toList key.toList == some f then "1" else "0"
+      | none => "missing"
+    | _, _ => "bad-arg"
   | _ => "bad-op"
 
 def main : IO Unit := do Wire.loop (← IO.getStdin) (← IO.getStdout) judge
